@@ -579,3 +579,84 @@ Definition std_prim2 (f : Z) (a b : val) : R val :=
   else RErr ETYPE.
 
 Definition evalS := eval_formula std_prim1 std_prim2.
+
+(* ================================================================================================= *)
+(* Part B: formula TEXT.  textbuilder.Replacer as UserActions._prepare_formula_renames uses it.          *)
+Definition text := list Z.
+Definition EVALUE : Z := 6.     (* ValueError("Invalid patch ...") *)
+
+Definition tlen (s : text) : Z := Z.of_nat (length s).
+(* Python s[a:b] and s[a:] for a, b >= 0 *)
+Definition slice (s : text) (a b : Z) : text := firstn (Z.to_nat (b - a)) (skipn (Z.to_nat a) s).
+Definition slice_from (s : text) (a : Z) : text := skipn (Z.to_nat a) s.
+
+Record patch := mkpatch { pstart : Z; pend : Z; pold : text; pnew : text }.
+
+(* textbuilder.make_patch *)
+Definition make_patch (full : text) (a b : Z) (new : text) : patch := mkpatch a b (slice full a b) new.
+
+(* the order of Python tuples (start, end, old_text, new_text); strings compare by code point *)
+Definition patch_lt (p q : patch) : bool :=
+  (pstart p <? pstart q) || ((pstart p =? pstart q) &&
+  ((pend p <? pend q) || ((pend p =? pend q) &&
+  (lex_lt (pold p) (pold q) || (name_eqb (pold p) (pold q) && lex_lt (pnew p) (pnew q)))))).
+
+(* Replacer.__init__: patches in sorted order; each is validated against the input text *)
+Fixpoint replace_go (s : text) (in_pos : Z) (ps : list patch) : R text :=
+  match ps with
+  | [] => ROk (slice_from s in_pos)
+  | p :: t =>
+      if name_eqb (slice s (pstart p) (pend p)) (pold p)
+      then rbind (replace_go s (pend p) t) (fun rest => ROk (slice s in_pos (pstart p) ++ pnew p ++ rest))
+      else RErr EVALUE
+  end.
+
+Definition replacer_text (s : text) (patches : list patch) : R text := replace_go s 0 (sort_by patch_lt patches).
+
+(* what codebuilder.parse_grist_names reports about one formula: start position, table id, column id or None *)
+Definition occ := (Z * name * option name)%type.
+Definition occ_text (o : occ) : name := match snd o with Some c => c | None => snd (fst o) end.
+
+Section TextRename.
+  Variable rn_tab : name -> name.
+  Variable rn_col : name -> name -> name.
+
+  Definition new_text (o : occ) : name :=
+    match snd o with Some c => rn_col (snd (fst o)) c | None => rn_tab (snd (fst o)) end.
+  (* `new_name = renames.get((table_id, col_id)); if new_name:` -- the entity is being renamed *)
+  Definition renamed (o : occ) : bool := negb (name_eqb (new_text o) (occ_text o)).
+
+  Definition occ_patch (formula : text) (o : occ) : patch :=
+    make_patch formula (fst (fst o)) (fst (fst o) + tlen (occ_text o)) (new_text o).
+
+  (* _prepare_formula_renames for one formula, given what grist_names() reported for it *)
+  Definition rename_text (formula : text) (reported : list occ) : R text :=
+    replacer_text formula (map (occ_patch formula) (filter renamed reported)).
+
+  (* the order in which Replacer will process the reported names *)
+  Definition occ_lt (formula : text) (a b : occ) : bool := patch_lt (occ_patch formula a) (occ_patch formula b).
+End TextRename.
+
+(* a formula text cut into segments: literal text and name tokens with the entity they refer to *)
+Inductive seg := Lit (s : text) | Nm (t : name) (c : option name).
+
+Definition seg_text (g : seg) : text :=
+  match g with Lit s => s | Nm t (Some c) => c | Nm t None => t end.
+
+Fixpoint flatten (l : list seg) : text :=
+  match l with [] => [] | g :: t => seg_text g ++ flatten t end.
+
+(* the name tokens with their positions, in text order *)
+Fixpoint occs (l : list seg) (off : Z) : list occ :=
+  match l with
+  | [] => []
+  | Lit s :: t => occs t (off + tlen s)
+  | Nm tb c :: t => (off, tb, c) :: occs t (off + tlen (seg_text (Nm tb c)))
+  end.
+
+Definition rn_seg (rn_tab : name -> name) (rn_col : name -> name -> name) (g : seg) : seg :=
+  match g with
+  | Lit s => Lit s
+  | Nm t (Some c) => Nm (rn_tab t) (Some (rn_col t c))
+  | Nm t None => Nm (rn_tab t) None
+  end.
